@@ -94,6 +94,7 @@ def showText (t : Labels.Text) : String :=
 def showErr : Labels.Err → String
   | .assertion => "E:AssertionError"
   | .index => "E:IndexError"
+  | .syntax => "E:PDFSyntaxError"
   | .fuel => "E:fuel"
 
 /-- Items up to and including the first error (the generator dies there). -/
@@ -242,6 +243,16 @@ def handle (line : String) : String :=
     | some n, some [t] =>
       match numTree t with
       | some t => "|".intercalate (showLabels (Labels.labels t n))
+      | none => "bad-op"
+    | _, _ => "bad-op"
+  | "labels.strict" :: n :: rest =>
+    match n.toNat?, parseAll rest with
+    | some n, some [t] =>
+      match numTree t with
+      | some t =>
+        match Labels.labelsStrict t n with
+        | .ok ls => "|".intercalate (showLabels ls)
+        | .error e => showErr e
       | none => "bad-op"
     | _, _ => "bad-op"
   | "spec.labels" :: n :: rest =>
